@@ -187,6 +187,6 @@ def expected_errors(str qualities, uint8_t base=33):
 
     if e < 0.0:
         for q in qualities:
-            if ord(q) < base or ord(q) > 126:
+            if ord(q) < base or ord(q) > min(126, base + 93):
                 raise ValueError(f"Not a valid phred value {ord(q)} for character {q}")
     return e
